@@ -616,3 +616,216 @@ func (s *Store) Select(vals []*big.Int, w int, idx *Term) *Term {
 	}
 	return s.mk(&Term{Op: OpSelect, Sort: BV(w), Args: []*Term{idx}, Name: id})
 }
+
+// Rebuild constructs a term with operator t.Op over new arguments through the
+// folding constructors (used by Eval).
+func (s *Store) rebuild(t *Term, a []*Term) *Term {
+	switch t.Op {
+	case OpNot:
+		return s.Not(a[0])
+	case OpAnd:
+		return s.And(a[0], a[1])
+	case OpOr:
+		return s.Or(a[0], a[1])
+	case OpEq:
+		if a[0].Sort.K == KFP && a[0].IsConst() && a[1].IsConst() {
+			// smt "=" on floats is bit identity except that all NaNs are equal
+			x, y := FPVal(a[0]), FPVal(a[1])
+			if x != x && y != y {
+				return s.T
+			}
+			return s.BoolConst(a[0].Val.Cmp(a[1].Val) == 0)
+		}
+		return s.Eq(a[0], a[1])
+	case OpIte:
+		return s.Ite(a[0], a[1], a[2])
+	case OpBvAdd, OpBvSub, OpBvMul, OpBvUdiv, OpBvUrem, OpBvSdiv, OpBvSrem, OpBvAnd, OpBvOr, OpBvXor, OpBvShl, OpBvLshr, OpBvAshr, OpBvUlt, OpBvUle, OpBvSlt, OpBvSle:
+		return s.Bin(t.Op, a[0], a[1])
+	case OpBvNot, OpBvNeg:
+		return s.Un(t.Op, a[0])
+	case OpZext:
+		return s.Resize(a[0], t.Sort.W, false)
+	case OpSext:
+		return s.Resize(a[0], t.Sort.W, true)
+	case OpExtract:
+		return s.Resize(a[0], t.Sort.W, false)
+	case OpFpAdd, OpFpSub, OpFpMul, OpFpDiv, OpFpLt, OpFpLe, OpFpEq, OpFpMin, OpFpMax:
+		return s.FpBin(t.Op, a[0], a[1])
+	case OpFpNeg, OpFpAbs, OpFpIsNaN, OpFpIsInf, OpFpRTI:
+		return s.FpUn(t.Op, a[0], t.Name)
+	case OpFpFromSInt:
+		return s.FpFromInt(a[0], true)
+	case OpFpFromUInt:
+		return s.FpFromInt(a[0], false)
+	case OpFpToSInt:
+		return s.FpToSInt(a[0], t.Sort.W)
+	case OpFpToBits:
+		return s.FpToBits(a[0])
+	case OpSelect:
+		if a[0].IsConst() {
+			vals := s.Tables[t.Name]
+			if a[0].Val.IsInt64() && a[0].Val.Int64() >= 0 && int(a[0].Val.Int64()) < len(vals) {
+				return s.BVConst(vals[a[0].Val.Int64()], t.Sort.W)
+			}
+		}
+		return nil
+	}
+	return nil
+}
+
+// Eval evaluates t under an assignment of variables to constant terms; variables
+// without a value evaluate to zero/false. Returns nil when the value cannot be
+// determined by constant folding.
+func (s *Store) Eval(t *Term, env func(*Term) *Term, memo map[*Term]*Term) *Term {
+	if t.Op == OpConst {
+		return t
+	}
+	if r, ok := memo[t]; ok {
+		return r
+	}
+	var r *Term
+	if t.Op == OpVar {
+		if v := env(t); v != nil {
+			r = v
+		} else {
+			switch t.Sort.K {
+			case KBool:
+				r = s.F
+			case KFP:
+				r = s.FPConst(0)
+			default:
+				r = s.BVConstI(0, t.Sort.W)
+			}
+		}
+	} else {
+		args := make([]*Term, len(t.Args))
+		ok := true
+		for i, a := range t.Args {
+			// short-circuit boolean structure so that unknown sub-terms do not matter
+			args[i] = s.Eval(a, env, memo)
+			if args[i] == nil {
+				ok = false
+			}
+		}
+		if !ok {
+			// and/or/ite can still be decided by the known arguments
+			switch t.Op {
+			case OpAnd:
+				if args[0] != nil && args[0].IsFalse() || args[1] != nil && args[1].IsFalse() {
+					r = s.F
+				}
+			case OpOr:
+				if args[0] != nil && args[0].IsTrue() || args[1] != nil && args[1].IsTrue() {
+					r = s.T
+				}
+			case OpIte:
+				if args[0] != nil && args[0].IsTrue() {
+					r = args[1]
+				} else if args[0] != nil && args[0].IsFalse() {
+					r = args[2]
+				}
+			}
+		} else {
+			r = s.rebuild(t, args)
+			if r != nil && !r.IsConst() {
+				r = nil
+			}
+		}
+	}
+	memo[t] = r
+	return r
+}
+
+// Subst rewrites t replacing terms by their images in env (typically variables by
+// constants learned from asserted equalities) and re-folding.
+func (s *Store) Subst(t *Term, env map[*Term]*Term, memo map[*Term]*Term) *Term {
+	if t.Op == OpConst {
+		return t
+	}
+	if r, ok := env[t]; ok {
+		return r
+	}
+	if t.Op == OpVar {
+		return t
+	}
+	if r, ok := memo[t]; ok {
+		return r
+	}
+	changed := false
+	args := make([]*Term, len(t.Args))
+	for i, a := range t.Args {
+		args[i] = s.Subst(a, env, memo)
+		if args[i] != a {
+			changed = true
+		}
+	}
+	r := t
+	if changed {
+		r = s.rebuild(t, args)
+		if r == nil {
+			r = s.mk(&Term{Op: t.Op, Sort: t.Sort, Args: args, Name: t.Name})
+		}
+	}
+	memo[t] = r
+	return r
+}
+
+// SolveEq: if the asserted literal has the form (= e k) with k constant and e a
+// variable possibly under +/- constant or an extension, returns (variable, value).
+func (s *Store) SolveEq(lit *Term) (*Term, *Term) {
+	if lit.Op == OpVar && lit.Sort.K == KBool {
+		return lit, s.T
+	}
+	if lit.Op == OpNot && lit.Args[0].Op == OpVar {
+		return lit.Args[0], s.F
+	}
+	if lit.Op != OpEq {
+		return nil, nil
+	}
+	e, k := lit.Args[0], lit.Args[1]
+	if e.IsConst() {
+		e, k = k, e
+	}
+	if !k.IsConst() || e.Sort.K != KBV {
+		return nil, nil
+	}
+	for depth := 0; depth < 6; depth++ {
+		switch e.Op {
+		case OpVar:
+			return e, k
+		case OpBvAdd:
+			if e.Args[1].IsConst() {
+				k, e = s.Bin(OpBvSub, k, e.Args[1]), e.Args[0]
+			} else if e.Args[0].IsConst() {
+				k, e = s.Bin(OpBvSub, k, e.Args[0]), e.Args[1]
+			} else {
+				return nil, nil
+			}
+		case OpBvSub:
+			if e.Args[1].IsConst() {
+				k, e = s.Bin(OpBvAdd, k, e.Args[1]), e.Args[0]
+			} else if e.Args[0].IsConst() {
+				k, e = s.Bin(OpBvSub, e.Args[0], k), e.Args[1]
+			} else {
+				return nil, nil
+			}
+		case OpSext:
+			w := e.Args[0].Sort.W
+			lo := s.Resize(k, w, false)
+			if s.Resize(lo, k.Sort.W, true) != k {
+				return nil, nil // the equality is unsatisfiable; leave it to the solver
+			}
+			k, e = lo, e.Args[0]
+		case OpZext:
+			w := e.Args[0].Sort.W
+			lo := s.Resize(k, w, false)
+			if s.Resize(lo, k.Sort.W, false) != k {
+				return nil, nil
+			}
+			k, e = lo, e.Args[0]
+		default:
+			return nil, nil
+		}
+	}
+	return nil, nil
+}
